@@ -29,6 +29,17 @@ class ParserSessionProp(object):
     rule = ''
 
     # ------------------------------------------------------------ generation
+    def bound_costs(self, k):
+        if not k['family'].startswith('synth'):
+            # the real rule functions cost ~0.5 ms per category pair (13 combinators, patterns re-parsed on
+            # every call): bound the searches so that one run stays within seconds
+            k['step_cap'] = min(k['step_cap'], 800)
+            k['step_cap_nbest'] = min(k['step_cap_nbest'], 500)
+            k['max_len'] = min(k['max_len'], 7)
+            k['n_calls'] = min(k['n_calls'], 4)
+            k['max_batch'] = 8
+        return k
+
     def knobs(self, rng, tier, options):
         return {
             'family': rng.choice(self.families),
@@ -63,7 +74,7 @@ class ParserSessionProp(object):
 
     def generate(self, seed, index, tier, options):
         rng = gen.stream(seed, self.id + ':ops', index)
-        knobs = self.knobs(rng, tier, options)
+        knobs = self.bound_costs(self.knobs(rng, tier, options))
         fam = knobs['family']
         heads = 'mixed' if fam == 'synth-mixed' else None
         wspec = gen.make_world(
@@ -85,8 +96,8 @@ class ParserSessionProp(object):
         r = rng.random()
         if r < 0.12:
             return [rng.choice(sids)]
-        size = rng.randint(2, 12)
-        if rng.random() < knobs.get('big_batch_rate', 0.0):
+        size = rng.randint(2, knobs.get('max_batch', 12))
+        if rng.random() < knobs.get('big_batch_rate', 0.0) and 'max_batch' not in knobs:
             size = rng.randint(21, 32)           # larger than the repository's default chunk size
         if rng.random() < 0.35 or size > 20:
             return [rng.choice(sids) for _ in range(size)]
